@@ -1208,6 +1208,14 @@ fn corpus(idx: u64, _seed: u64, ctx: &mut Ctx) -> R {
 /// decoded value in the accessor sweep).
 fn legal_single_alloc(ty: usize, len: usize) -> usize {
     let pset_cap = if ty == 4 { 10_000 * std::mem::size_of::<pset::Input>().max(std::mem::size_of::<pset::Output>()) } else { 0 };
+    // A PSET input can hold a *bitcoin* transaction (`pegin_tx`), decoded by rust-bitcoin: its `Witness` decoder
+    // reserves 4 bytes of index per declared element (up to 4 000 000 elements = 16 MB) and doubles once when the
+    // first element is read, i.e. up to ~32 MB for a short input. That allocation is bounded by a constant and lies
+    // inside the dependency, not in this library's length checks (found by the thorough tier of `alloc_caps`; see
+    // DESIGN.md section 6): the types that embed that decoder keep the guard's general 64 MiB bound.
+    if ty == 4 || ty == 20 {
+        return 64 << 20;
+    }
     pset_cap.max(4_000_000) + (1 << 20) + 64 * len
 }
 
